@@ -32,6 +32,11 @@ type ltruth struct {
 	Commit uint64   `json:"commit"`
 	Total  int64    `json:"total"`
 	Keys   []string `json:"keys"`
+	// Synthetic: the transaction was closed by error recovery: its COMMIT report carries the position of the
+	// last COMMIT received before it (recoverFromErrorResponse), i.e. the SAME position as its predecessor.
+	// Its real COMMIT lies in the announced gap: an emission of that shared position does not wait for it
+	// (a restart from there makes PostgreSQL send the whole transaction again); it must still drain (C02).
+	Synthetic bool `json:"synthetic,omitempty"`
 }
 
 type lcase struct {
@@ -191,7 +196,7 @@ func ledgerMonitor(c lcase, obs []lobs, entries []progress.LedgerEntry, idx map[
 				maxEmit = o.emit
 			}
 			for _, t := range c.Truth {
-				if t.Commit > o.emit {
+				if t.Commit > o.emit || t.Synthetic {
 					continue
 				}
 				done := false
@@ -265,7 +270,10 @@ func genPipelineLedgerCase(rng *rand.Rand, allowStale bool) lcase {
 	}
 	for i := 0; i < nt; i++ {
 		txn := fmt.Sprintf("%d", 700+i)
-		commit += uint64(1 + rng.Intn(500))
+		synthetic := i > 0 && !allowStale && rng.Intn(7) == 0
+		if !synthetic {
+			commit += uint64(1 + rng.Intn(500))
+		}
 		total := []int64{0, 0, 1, 1, 2, 3, 5, 8}[rng.Intn(8)]
 		nd := 1
 		if r := rng.Intn(8); r == 0 {
@@ -273,7 +281,13 @@ func genPipelineLedgerCase(rng *rand.Rand, allowStale bool) lcase {
 		} else if r <= 2 {
 			nd = 2
 		}
-		tr := ltruth{T: txn, Commit: commit, Total: total}
+		if synthetic {
+			nd = 1
+			if total == 0 {
+				total = 1
+			}
+		}
+		tr := ltruth{T: txn, Commit: commit, Total: total, Synthetic: synthetic}
 		for d := 0; d < nd; d++ {
 			keyseq++
 			key := fmt.Sprintf("%s-%d", txn, 1000+keyseq)
@@ -385,7 +399,7 @@ func init() {
 				cases = append(cases, genSoupLedgerCase(rng))
 			}
 		}
-		rep.Rule = "corpus first, then seeded: 45% pipeline-like histories without stale completions, 30% pipeline-like with arbitrary (possibly stale) completion order, 25% random op soup over 3 transaction ids x 3 keys incl. duplicate Seen, zero commits and keys shared across ids. Non-trivial: at least one emission or error observed and >= 4 ops; distinct by op sequence."
+		rep.Rule = "corpus first, then seeded: 45% pipeline-like histories without stale completions (one transaction in seven after the first is closed by a SYNTHETIC commit report at its predecessor's position, as error recovery produces), 30% pipeline-like with arbitrary (possibly stale) completion order, 25% random op soup over 3 transaction ids x 3 keys incl. duplicate Seen, zero commits and keys shared across ids. Non-trivial: at least one emission or error observed and >= 4 ops; distinct by op sequence."
 		var sb strings.Builder
 		sb.WriteString("From Bifrost.model Require Import Base Ledger.\nOpen Scope string_scope.\nDefinition cases : list lcase := [\n")
 		seen := map[string]bool{}
